@@ -111,11 +111,14 @@ pub fn main(args: &[String]) -> i32 {
 	let count: u64 = args[1].parse().unwrap();
 	let mut out = Out::new(&args[2]);
 	let dir = PathBuf::from(&args[2]).join("db");
-	let mut rng = Rng::new(seed ^ 0xC18);
 	let mut oracle = String::new();
 	let mut dist: BTreeMap<String, u64> = BTreeMap::new();
 	let mut nontrivial = 0u64;
-	for _ in 0..count {
+	for case_no in 0..count {
+		let mut rng = crate::util::case_rng(seed ^ 0xC18, case_no);
+		if crate::util::skip_case(case_no) {
+			continue
+		}
 		let _ = std::fs::remove_dir_all(&dir);
 		std::fs::create_dir_all(&dir).unwrap();
 		let mut handles: BTreeMap<u64, Handle> = BTreeMap::new();
